@@ -436,6 +436,16 @@ def run_check(pid, tier, seed, replay, body, modules=None, gen=None, level="proo
     """Common driver.  body(ck) runs the property-specific part."""
     ck = Check(pid, tier, seed, replay)
     ck.extra_prop_files = list(extra_prop_files)
+    # watchdog: a run that does not finish (a numerical library looping on NaN input, a dead-locked child) is an infrastructure problem, exit 2
+    import threading
+    limit = float(os.environ.get("PGV_TIMEOUT") or (7200 if tier == "thorough" else 1800))
+
+    def _watchdog():
+        print(f"[{pid}] TIMEOUT: no result after {limit:.0f} s (PGV_TIMEOUT)", file=sys.stderr, flush=True)
+        os._exit(2)
+    _t = threading.Timer(limit, _watchdog)
+    _t.daemon = True
+    _t.start()
     if ck.replay_obj is not None:
         ck.seed = seed = int(ck.replay_obj.get("seed", seed))
         ck.tier = tier = ck.replay_obj.get("tier", tier)
